@@ -207,6 +207,25 @@ V("c20-expo-no-cap", "C20", BOC, "return int(math.Min(float64(cap), float64(base
 V("c20-n-rename", "C20", BO, "\trealSleep := f(b.ctx, maxSleepMs)\n\tif cfg.metric != nil {\n\t\t(*cfg.metric).Observe(float64(realSleep) / 1000)\n\t}\n\n\tb.totalSleep += realSleep\n",
   "\tslept := f(b.ctx, maxSleepMs)\n\trealSleep := slept\n\tif cfg.metric != nil {\n\t\t(*cfg.metric).Observe(float64(realSleep) / 1000)\n\t}\n\n\tb.totalSleep = b.totalSleep + slept\n", "none")
 
+# ---------------------------------------------------------------- C10
+RR = "internal/locate/region_request.go"
+RS = "internal/locate/replica_selector.go"
+V("c10-drop-retry-marker", "C10", RR, "\tif !req.IsRetryRequest && s.vars.sendTimes > 0 {\n\t\treq.IsRetryRequest = true\n\t}\n", "", "C10.R1")
+V("c10-marker-only-after-region-error", "C10", RR,
+  "\t\ts.vars.regionErr = nil\n\t}\n\n\ts.vars.rpcCtx, s.vars.resp = nil, nil\n\tif !req.IsRetryRequest && s.vars.sendTimes > 0 {\n\t\treq.IsRetryRequest = true\n\t}\n",
+  "\t\ts.vars.regionErr = nil\n\t\treq.IsRetryRequest = true\n\t}\n\n\ts.vars.rpcCtx, s.vars.resp = nil, nil\n", "C10.R1")
+V("c10-marker-threshold", "C10", RR, "if !req.IsRetryRequest && s.vars.sendTimes > 0 {", "if !req.IsRetryRequest && s.vars.sendTimes > 1 {", "C10.R1")
+V("c10-sendtimes-reset", "C10", RR, "\t\ts.vars.regionErr = nil\n\t}\n\n\ts.vars.rpcCtx, s.vars.resp = nil, nil\n", "\t\ts.vars.regionErr = nil\n\t\ts.vars.sendTimes = 0\n\t}\n\n\ts.vars.rpcCtx, s.vars.resp = nil, nil\n", "C10.R1")
+V("c10-validate-skipped-on-retry", "C10", RR, "\tif err = s.validateReadTS(bo.GetCtx(), req); err != nil {", "\tif err = s.validateReadTS(bo.GetCtx(), req); err != nil && !req.IsRetryRequest {", "C10.R2")
+V("c10-validate-misses-scan", "C10", RR, "case tikvrpc.CmdGet, tikvrpc.CmdScan, tikvrpc.CmdBatchGet, tikvrpc.CmdCop,", "case tikvrpc.CmdGet, tikvrpc.CmdBatchGet, tikvrpc.CmdCop,", "C10.R2")
+V("c10-replicaread-for-writes", "C10", RS, "if s.target != nil && s.busyThreshold > 0 && s.isReadOnlyReq && (", "if s.target != nil && s.busyThreshold > 0 && (", "C10.R3")
+V("c10-mixed-replicaread-unguarded", "C10", RS, "req.ReplicaRead = s.isReadOnlyReq && s.target.peer.Id != s.region.GetLeaderPeerID()", "req.ReplicaRead = s.target.peer.Id != s.region.GetLeaderPeerID()", "C10.R3")
+V("c10-isreadreq-includes-lock", "C10", RS, "\tcase tikvrpc.CmdGet, tikvrpc.CmdBatchGet, tikvrpc.CmdScan,\n\t\ttikvrpc.CmdCop,", "\tcase tikvrpc.CmdGet, tikvrpc.CmdBatchGet, tikvrpc.CmdScan, tikvrpc.CmdPessimisticLock,\n\t\ttikvrpc.CmdCop,", "C10.R3")
+V("c10-attempts-reset-on-not-leader", "C10", RS, "\tif s.target != nil {\n\t\ts.target.addFlag(notLeaderFlag)\n\t}\n\tleader := notLeader.GetLeader()", "\tif s.target != nil {\n\t\ts.target.addFlag(notLeaderFlag)\n\t\ts.target.attempts = 0\n\t}\n\tleader := notLeader.GetLeader()", "C10.R4")
+V("c10-attempt-not-counted-for-proxy-path", "C10", RR, "\trpcCtx.Addr = addr\n\ttargetReplica.attempts++\n", "\trpcCtx.Addr = addr\n\tif proxyReplica == nil {\n\t\ttargetReplica.attempts++\n\t}\n", "C10.R4")
+V("c10-exhausted-gt", "C10", RR, "return r.attempts >= maxAttempt || (maxAttemptTime > 0 && r.attemptedTime >= maxAttemptTime)", "return r.attempts > maxAttempt+maxAttempt || (maxAttemptTime > 0 && r.attemptedTime >= maxAttemptTime)", "C10.R4")
+V("c10-n-marker-refactor", "C10", RR, "\tif !req.IsRetryRequest && s.vars.sendTimes > 0 {\n\t\treq.IsRetryRequest = true\n\t}\n", "\tisRetry := s.vars.sendTimes > 0\n\tif isRetry {\n\t\treq.IsRetryRequest = true\n\t}\n", "none")
+
 if __name__ == "__main__":
     out = os.path.join(os.path.dirname(os.path.abspath(__file__)), "variants.json")
     json.dump(VARS, open(out, "w"), indent=1)
